@@ -30,7 +30,7 @@ def validate(records, tag="law", timeout=1200):
             f.write("SPECIFICATION Spec\nINVARIANT Diagnose\n")
         r = run_tlc(d, "MC", cfg=cfg, workers=1, env={"TRACE_FILE": tf}, timeout=timeout, xmx="3g")
     if not r.ok:
-        print(r.tail(30))
+        print("\n".join(l for l in r.out.splitlines() if not l.startswith(("State ", "i = ")) and l.strip())[-3000:])
         raise MachineryError("TLC failed on Law records")
     if r.distinct != len(records):
         raise MachineryError(f"TLC visited {r.distinct} of {len(records)} records")
